@@ -50,6 +50,12 @@
 //     `sections : list (N * ..)` is an extra parameter of the translated function (one component per closure parameter
 //     that is not named _); the closure has NO result: falling off its end and `return` both mean "next item"; a `return`
 //     inside a for loop inside the closure leaves the loop and the closure (GRet);
+//   - mem.bytes (kernel/mem_util.go): `w := *(*[]byte)(unsafe.Pointer(&reflect.SliceHeader{Len: int(n), Cap: int(n), Data: a}))`
+//     DEFINES a view: w is the window [a, a+n) of the byte memory (gwoverlay, Lib/GoBytes.v: None = GPanic when int(n) is
+//     negative, i.e. n >= 2^63 - the real code then has a slice of negative length); `w[i] = e` is a bounds-checked store into
+//     the memory (gwset), `w[i:]` / `w[:i]` are sub-windows (bounds-checked against the length = capacity: gwfrom / gwto),
+//     `copy(d, s)` of two windows is the memory operation mem.bytes.copy (Go's memmove of the shorter length) on their
+//     start addresses and lengths; `x *= e` on a local integer wraps at its width;
 //
 // Everything here is guarded by memOn(): the output for configs without "mem" is unchanged.
 package main
@@ -90,9 +96,18 @@ type memSpec struct {
 	NoReturn []string `json:"noreturn"`
 	// ErrArg: Coq function option string -> garg encoding an error value passed to a seam
 	ErrArg string `json:"errarg"`
+	// Bytes: byte-memory mode (kernel.Memset / Memcopy): the memory type is a byte memory and a []byte OVERLAID on raw memory
+	// through reflect.SliceHeader is a WINDOW (start address, length) of it; "copy" / "set" name the memory operations
+	// (copy mem dstStart dstLen srcStart srcLen : memmove of the shorter length; set mem index value)
+	Bytes *memBytesSpec `json:"bytes"`
 	// VisitorVars: a visitor function that is handed a closure STORED IN A VARIABLE (`var visitor = func(..) {..}`, passed
 	// as visitFn(<anything mentioning &visitor>)): function -> name of the extra parameter holding the sequence of items
 	VisitorVars map[string]string `json:"visitorvars"`
+}
+
+type memBytesSpec struct {
+	Copy string `json:"copy"`
+	Set  string `json:"set"`
 }
 
 type memFnSpec struct {
@@ -564,6 +579,9 @@ func (tr *translator) memExpr(e ast.Expr, en *env) (string, tinfo, bool) {
 func (tr *translator) memStmt(stmts []ast.Stmt, en *env, k func(*env) string, rest func(*env) string) (string, bool) {
 	if !memOn() || tr.mon != "world" {
 		return "", false
+	}
+	if out, ok := tr.memBytesStmt(stmts, en, rest); ok {
+		return out, true
 	}
 	switch s := stmts[0].(type) {
 	case *ast.ReturnStmt:
@@ -1154,4 +1172,187 @@ func (tr *translator) memVisitorVar(c *ast.CallExpr, en *env, rest func(*env) st
 	out += "  | GPanic => GPanic | GFuel => GFuel\n"
 	out += "  | GOk st => " + letPat(pat) + "\n  " + rest(en) + "\n  end"
 	return out, true
+}
+
+// ---- byte-memory mode: windows of raw memory (kernel.Memset / Memcopy) ----
+
+const memWinWidth = -12
+
+// memOverlay recognises *(*[]byte)(unsafe.Pointer(&reflect.SliceHeader{Len: int(n), Cap: int(n), Data: a})): (a, n)
+func memOverlay(e ast.Expr) (data ast.Expr, n ast.Expr, ok bool) {
+	st, isStar := e.(*ast.StarExpr)
+	if !isStar {
+		return
+	}
+	call, isCall := st.X.(*ast.CallExpr)
+	if !isCall || len(call.Args) != 1 {
+		return
+	}
+	par, isPar := call.Fun.(*ast.ParenExpr)
+	if !isPar {
+		return
+	}
+	pst, isP := par.X.(*ast.StarExpr)
+	if !isP {
+		return
+	}
+	at, isArr := pst.X.(*ast.ArrayType)
+	if !isArr || at.Len != nil || exprText(at.Elt) != "byte" {
+		return
+	}
+	up, isUp := call.Args[0].(*ast.CallExpr)
+	if !isUp || exprText(up.Fun) != "unsafe.Pointer" || len(up.Args) != 1 {
+		return
+	}
+	un, isUn := up.Args[0].(*ast.UnaryExpr)
+	if !isUn || un.Op != token.AND {
+		return
+	}
+	cl, isCl := un.X.(*ast.CompositeLit)
+	if !isCl || exprText(cl.Type) != "reflect.SliceHeader" {
+		return
+	}
+	var lenE, capE ast.Expr
+	for _, el := range cl.Elts {
+		kv, isKv := el.(*ast.KeyValueExpr)
+		if !isKv {
+			return nil, nil, false
+		}
+		switch exprText(kv.Key) {
+		case "Len":
+			lenE = kv.Value
+		case "Cap":
+			capE = kv.Value
+		case "Data":
+			data = kv.Value
+		default:
+			return nil, nil, false
+		}
+	}
+	unInt := func(x ast.Expr) ast.Expr {
+		if c, is := x.(*ast.CallExpr); is && exprText(c.Fun) == "int" && len(c.Args) == 1 {
+			return c.Args[0]
+		}
+		return nil
+	}
+	if lenE == nil || capE == nil || data == nil {
+		return nil, nil, false
+	}
+	l, c := unInt(lenE), unInt(capE)
+	if l == nil || c == nil || exprText(l) == "" || exprText(l) != exprText(c) {
+		return nil, nil, false
+	}
+	return data, l, true
+}
+
+// memWindowExpr: a window variable, w[i:] or w[:i]
+func (tr *translator) memWindowExpr(e ast.Expr, en *env) (string, bool) {
+	switch t := e.(type) {
+	case *ast.Ident:
+		if en.vars[t.Name].width == memWinWidth {
+			return v(t.Name), true
+		}
+	case *ast.SliceExpr:
+		id, isId := t.X.(*ast.Ident)
+		if !isId || en.vars[id.Name].width != memWinWidth || t.Slice3 {
+			return "", false
+		}
+		if (t.Low == nil) == (t.High == nil) {
+			fail("%s: a window may be sliced as w[i:] or w[:i] only", tr.fn.Name)
+		}
+		op, ix := "gwfrom", t.Low
+		if t.High != nil {
+			op, ix = "gwto", t.High
+		}
+		is, it := tr.expr(ix, en)
+		if it.width < 0 || it.signed {
+			fail("%s: the bound of a window slice is not an unsigned integer", tr.fn.Name)
+		}
+		tmp := tr.tmp()
+		tr.pre = append(tr.pre, fmt.Sprintf("match %s %s %s with None => GPanic | Some %s =>", op, v(id.Name), is, tmp))
+		return tmp, true
+	}
+	return "", false
+}
+
+// memBytesStmt: the statements of the byte-memory mode
+func (tr *translator) memBytesStmt(stmts []ast.Stmt, en *env, rest func(*env) string) (string, bool) {
+	b := memCfg.Mem.Bytes
+	if b == nil {
+		return "", false
+	}
+	w := v(tr.ptrRecv)
+	switch s := stmts[0].(type) {
+	case *ast.AssignStmt:
+		if len(s.Lhs) != 1 || len(s.Rhs) != 1 {
+			return "", false
+		}
+		// w := overlay
+		if s.Tok == token.DEFINE {
+			if data, n, ok := memOverlay(s.Rhs[0]); ok {
+				id, isId := s.Lhs[0].(*ast.Ident)
+				if !isId {
+					return "", false
+				}
+				if _, dup := en.vars[id.Name]; dup {
+					fail("%s: %s := re-declares a variable", tr.fn.Name, id.Name)
+				}
+				ds, dt := tr.expr(data, en)
+				ns, nt := tr.expr(n, en)
+				if dt.width != 64 || nt.width != 64 || nt.signed {
+					fail("%s: address and size of an overlaid slice must be uintptr", tr.fn.Name)
+				}
+				pre := tr.takePre()
+				en2 := en.clone()
+				en2.vars[id.Name] = tinfo{width: memWinWidth}
+				pre = append(pre, fmt.Sprintf("match gwoverlay %s %s with None => GPanic | Some %s =>", ds, ns, v(id.Name)))
+				return tr.wrapPre(pre, rest(en2)), true
+			}
+		}
+		// w[i] = e
+		if ix, ok := s.Lhs[0].(*ast.IndexExpr); ok && s.Tok == token.ASSIGN {
+			if id, isId := ix.X.(*ast.Ident); isId && en.vars[id.Name].width == memWinWidth {
+				rhs, rt := tr.expr(s.Rhs[0], en)
+				if rt.width == 0 {
+					rhs = tr.wrap(8, rhs)
+				} else if rt.width != 8 {
+					fail("%s: a byte store of a non-byte value", tr.fn.Name)
+				}
+				is, it := tr.expr(ix.Index, en)
+				if it.width < 0 || it.signed && it.width != 64 {
+					fail("%s: index of a window store", tr.fn.Name)
+				}
+				pre := tr.takePre()
+				tmp := tr.tmp()
+				pre = append(pre, fmt.Sprintf("match gwset %s (f_world_mem %s) %s %s %s with None => GPanic | Some %s =>", b.Set, w, v(id.Name), is, rhs, tmp))
+				return tr.wrapPre(pre, "let "+w+" := (set_f_world_mem "+w+" "+tmp+") in\n  "+rest(en)), true
+			}
+		}
+		// x *= e on a local integer
+		if s.Tok == token.MUL_ASSIGN {
+			if id, isId := s.Lhs[0].(*ast.Ident); isId {
+				if ti, isVar := en.vars[id.Name]; isVar && ti.width > 0 && !ti.signed {
+					rhs, _ := tr.expr(s.Rhs[0], en)
+					pre := tr.takePre()
+					return tr.wrapPre(pre, "let "+v(id.Name)+" := "+tr.wrap(ti.width, "("+v(id.Name)+" * "+rhs+")")+" in\n  "+rest(en)), true
+				}
+			}
+		}
+	case *ast.ExprStmt:
+		c, isCall := s.X.(*ast.CallExpr)
+		if !isCall || exprText(c.Fun) != "copy" || len(c.Args) != 2 {
+			return "", false
+		}
+		d, okD := tr.memWindowExpr(c.Args[0], en)
+		if !okD {
+			return "", false
+		}
+		sw, okS := tr.memWindowExpr(c.Args[1], en)
+		if !okS {
+			fail("%s: copy from something that is not a window", tr.fn.Name)
+		}
+		pre := tr.takePre()
+		return tr.wrapPre(pre, "let "+w+" := (set_f_world_mem "+w+" (gwcopy "+b.Copy+" (f_world_mem "+w+") "+d+" "+sw+")) in\n  "+rest(en)), true
+	}
+	return "", false
 }
